@@ -40,4 +40,3 @@ package req
 //@   props C03
 //@   requires h != nil && r != nil
 //@   modifies *, r.pos, r.avail, r.failed
-
